@@ -29,12 +29,13 @@ import itertools, struct
 PROPERTY = "C11"
 FAMILY = "c11"
 LEAN_MODULE = "ElfioVerif.Props.C11"
-THEOREMS = ["ElfioVerif.C11.add_refines", "ElfioVerif.C11.adds_refine", "ElfioVerif.C11.rel_bytes",
-            "ElfioVerif.C11.get_refines", "ElfioVerif.C11.get_total",
-            "ElfioVerif.C11.rel_roundtrip", "ElfioVerif.C11.rela_roundtrip",
-            "ElfioVerif.C11.set_entry_frame", "ElfioVerif.C11.set_entry_get",
-            "ElfioVerif.C11.swap_refines", "ElfioVerif.C11.swap_symbols_involutive",
-            "ElfioVerif.C11.spec_roundtrip", "ElfioVerif.C11.fresh_reloc"]
+THEOREMS = ["ElfioVerif.C11." + t for t in (
+    "spec_roundtrip", "add_refines", "addInfo_refines", "adds_refine", "rel_bytes",
+    "get_refines", "get_invalid", "get_total", "rel_roundtrip", "rela_roundtrip", "normEntry_addend_fits",
+    "set_entry_frame", "set_entry_bytes", "set_entry_get", "set_invalid",
+    "swap_refines", "swap_symbols_involutive", "fresh_reloc")] + ["ElfioVerif." + t for t in (
+    "rel32_sym_pack", "rel32_type_pack", "rel32_sym_pack_any", "rel32_type_pack_any", "rel64_sym_pack",
+    "rel64_type_pack", "rel32_pack_unpack", "rel64_pack_unpack", "sext32_trunc_of_fits")]
 SITES = ["reloc_", "rel32_", "rel64_", "rela32_", "rela64_", "conv", "sec32_insert", "sec64_insert"]
 RULE = ("tables of 0-40 entries built with add_entry (symbol/type and info overloads) in {REL,RELA} x {ELF32,ELF64} x "
         "{LSB,MSB}; offsets/addends over the full 64-bit parameter width incl. boundary values, symbol < 2^24 / < 2^32, "
